@@ -11,6 +11,8 @@ fn main() {
     let args = Args::parse();
     let mut rep = Report::new("C06", &args);
     let n_random = args.pick(48, 256) as usize;
+    // a slot that is re-planned into: holds the previous case's profile until the current one overwrites it in place
+    let mut slot: Option<(MotionProfile, i64)> = None;
     for case in args.cases("profiles", 40_000, 1_500_000) {
         let mut rng = Rng::new(args.seed, 601, case);
         let c = gen_case(&mut rng, case);
@@ -95,6 +97,27 @@ fn main() {
             }
         }
         if bad { continue; }
+        // re-planning into the same storage: query the old profile at t*, overwrite it in place with this case's profile,
+        // query again at the same t*: the answers are those of the NEW profile (compared with `mp`, built separately)
+        {
+            let tstar = match &slot { Some((_, t)) => *t, None => *rng.pick(&ts).max(&0) };
+            if let Some((old, _)) = &slot { let _ = (hist(old, tstar), old.get_piece(Time(tstar)), old.get_velocity(Time(tstar))); }
+            match build(&c) {
+                Ok(newp) => {
+                    let next_t = *rng.pick(&[0i64, b[0], b[1], b[2] / 2, b[2]]);
+                    match &mut slot { Some(sl) => { sl.0 = newp; sl.1 = next_t; } None => slot = Some((newp, next_t)) }
+                    let cur = &slot.as_ref().unwrap().0;
+                    let f = |m: &MotionProfile| format!("{:?} {:?} {:?} {:?} {:?} {:?}", m.get_piece(Time(tstar)), m.get_mode(Time(tstar)), m.get_acceleration(Time(tstar)).map(|q| q.value.to_bits()), m.get_velocity(Time(tstar)).map(|q| q.value.to_bits()), m.get_position(Time(tstar)).map(|q| q.value.to_bits()), hist(m, tstar).map(|d| (d.time, PositionDerivative::from(d.value), f32::from(d.value).to_bits())));
+                    let (got, want) = (f(cur), f(&mp));
+                    rep.eval();
+                    rep.tally("replanned_slot_comparisons");
+                    if got != want {
+                        rep.violation("C06/stale-after-replanning", "profiles", case, format!("t={}: a profile written over an older one in the same storage answers {} but the same profile built elsewhere answers {}; case={:?}", tstar, got, want, c));
+                    }
+                }
+                Err(_) => {}
+            }
+        }
         // the accessors are functions of t alone: the FIRST call ever made on a newly built profile answers like the
         // long-lived object that has already served the whole sweep (t = 0 and the phase boundaries included)
         let mut cand = vec![0i64, 1, -1, b[0], b[1], b[2], b[2].saturating_sub(1)];
@@ -128,6 +151,7 @@ fn main() {
     rep.floor("direction/reversed", 100);
     rep.floor("after_completion_reads", 1000);
     rep.floor("fresh_first_query_comparisons", 5000);
+    rep.floor("replanned_slot_comparisons", 1000);
     rep.floor("end_kind_decided_by_subnormal", 20);
     rep.finish(&args);
 }
